@@ -252,6 +252,13 @@ class Check(object):
         self.cov['axioms_used'] = sorted(allax)
         if bad:
             self.proof_broken.append({'axioms': bad, 'audit_tail': out[-800:]})
+        if self.tier == 'thorough' and not bad:
+            # independent re-check of the compiled module (and everything it imports) by leanchecker
+            rc, lout = self.lean._locked(lambda: sh(['lake', 'env', 'leanchecker', module], cwd=LEAN, timeout=1800))
+            self.cov['leanchecker'] = 'ok' if rc == 0 else 'FAILED'
+            if rc != 0:
+                self.proof_broken.append({'leanchecker': lout[-800:]})
+                return False
         return not bad and not hits
 
     def driver(self, lines):
